@@ -158,7 +158,11 @@ func ExecSpdx(op M) (res any) {
 
 var spdxIDPool = []string{"a", "b", "c", "pkg-1.0", "lib.so", "A-b.C", "n1", "n11", "x0", "aSPDXRef-b",
 	// ordinary identifiers that merely contain the marker of generated references
-	"lib-autoconf", "gnu-automake--m4"}
+	"lib-autoconf", "gnu-automake--m4",
+	// identifiers with the prefix of generated references but not their shape (no "--", no flags)
+	// ("protobom-auto" itself is erased by the CycloneDX writer and re-generated by its reader with
+	// a number that depends on the writer's map order: only stream ser uses it)
+	"protobom-v0.4.1", "protobom-"}
 var textPool = []string{"x", "Y z", "v1.2.3", "é ü 漢字", "a:b+c", "tab\tsep", "q\"uote", "back\\slash", "<html>&amp;", "line\nbreak", "  padded  ", "\u2028ls", "🙂"}
 var plainNames = []string{"ACME", "Bob Builder", "Org (x)", "Jo: the one", "é-corp"}
 var sharedHashAlgos = []int{1, 2, 3, 4, 5, 6, 7, 8, 9, 10, 11, 12, 14, 15, 16, 17}
